@@ -14,11 +14,12 @@ from .brokers import redis_op_fields
 SUMMARY = "Writer/reader table agreement: codecs vs field types, job settings vs constructor keywords, wire keys per broker, falsy substitutions, name alphabet vs key separators, bucket marker."
 DECIDED = [
     "R-C07-CODEC: for each serialisable dataclass the fields whose type is not JSON-native equal the keys converted in decode, each with the "
-    "inverse of the encoder branch for that type; encode = JSON(asdict(self)); decode returns cls(**loaded) dropping only the documented keys",
+    "inverse of the encoder branch for that type; encode = JSON(asdict(self)); decode returns cls(**loaded) dropping only the documented keys; the default serializer and the JSON "
+    "encoder dump pydantic models whole (no include/exclude/exclude_unset/exclude_defaults/exclude_none/by_alias option), and every return of the serializer derives from its argument",
     "R-C07-MAP: every constructor keyword of the routing key / parameters is fed by the like-named job setting, none by a constant",
     "R-C07-WIRE: per broker the set of wire keys written equals the set read, fed from / into the same fields (Redis hash fields, AMQP body "
     "keys, headers, properties); the consumers rebuild the routing key from exactly those",
-    "R-C07-FALSY: no `x or default` on a wire value whose domain has a legal falsy member (priority 0, empty payload); no timedelta field truncation (.seconds)",
+    "R-C07-FALSY: no `x or default` on a wire value whose domain has a legal falsy member (priority 0, empty payload); no duration taken from timedelta.seconds/.microseconds without the .days of the same value",
     "R-C07-ALPHABET: the validators' alphabet (from the regex AST) excludes ':' and glob metacharacters; every split(':') unpacks as many parts as "
     "its constructor joins; every name/id entering a routing key passes a fullmatch of the validators",
     "R-C07-MARKER: construct/check/deconstruct of the bucket marker use one KEY; check is bounded to the start of the payload; the payload fetch "
